@@ -321,7 +321,8 @@ theorem faultfree_delivery (s : State) (e : Ev) (rest : List Ev) (c sid : Nat) (
     s'.outbox = rest ∧ s'.pend = none ∧ s'.lost = s.lost ∧
     ∃ l', s'.links[c]? = some l' ∧ l'.cmds = [] ∧ l'.h = { pending := none, sink := .ready sid } ∧
       l'.delivered = l.delivered ++ [e] ∧
-      writtenOf l'.outs = writtenOf l.outs ++ e.blocks.map encB ∧ droppedOf l'.outs = droppedOf l.outs := by
+      writtenOf l'.outs = writtenOf l.outs ++ e.blocks.map encB ∧ droppedOf l'.outs = droppedOf l.outs ∧
+      l'.peer = l.peer ∧ l'.closing = false ∧ l'.gone = false := by
   have hc : c ∈ poolOf s.links e.peer := mem_poolOf hl hp hg
   -- take
   have e1 : ServerLink.step s .take =
@@ -368,12 +369,54 @@ theorem faultfree_delivery (s : State) (e : Ev) (rest : List Ev) (c sid : Nat) (
   refine ⟨rfl, rfl, rfl, ?_⟩
   rw [kmap_get_insert, if_pos rfl]
   refine ⟨_, rfl, ?_⟩
-  refine ⟨rfl, rfl, rfl, ?_, ?_⟩
+  refine ⟨rfl, rfl, rfl, ?_, ?_, rfl, by simpa [dlv] using hcl, by simpa [dlv] using hg⟩
   · simp only [dlv] at f3
     simp only [dlv, Proofs.ServerSink.writtenOf_append]
     rw [show okAns = { flush := .ok, sendOk := true } from rfl, f3]
   · simp only [dlv] at f4
     simp only [dlv, Proofs.ServerSink.droppedOf_append]
     rw [show okAns = { flush := .ok, sendOk := true } from rfl, f4, List.append_nil]
+
+
+/-- the schedule that carries `k` events, one after the other, over connection `c` -/
+def deliverAllVia (c n : Nat) : Nat → List Act
+  | 0 => []
+  | k + 1 => deliverVia c n ++ deliverAllVia c n k
+
+theorem run_append (s : State) (a b : List Act) : ServerLink.run s (a ++ b) = ServerLink.run (ServerLink.run s a) b := by
+  simp [ServerLink.run, List.foldl_append]
+
+/-- Fault-free delivery of a whole queue: when everything in the behaviour's queue is for the peer of
+a connection with an open channel and an idle stream, and the sink accepts and flushes what it is
+given, carrying the events over that connection one after the other writes all their blocks on the
+stream in the order of dispatch; nothing is dropped, nothing stays behind. -/
+theorem faultfree_delivers_all (es : List Ev) : ∀ (s : State) (c sid : Nat) (l : Link) (n : Nat),
+    s.outbox = es → s.pend = none → s.links[c]? = some l → (∀ e ∈ es, e.peer = l.peer) →
+    l.closing = false → l.gone = false → l.cmds = [] → l.h = { pending := none, sink := .ready sid } →
+    (∀ e ∈ es, e.blocks.length + 1 ≤ n) →
+    let s' := ServerLink.run s (deliverAllVia c n es.length)
+    s'.outbox = [] ∧ s'.pend = none ∧ s'.lost = s.lost ∧
+    ∃ l', s'.links[c]? = some l' ∧ l'.cmds = [] ∧ l'.h = { pending := none, sink := .ready sid } ∧
+      l'.delivered = l.delivered ++ es ∧
+      writtenOf l'.outs = writtenOf l.outs ++ blocksOf es ∧ droppedOf l'.outs = droppedOf l.outs := by
+  induction es with
+  | nil =>
+    intro s c sid l n hob hpd hl _ _ _ hcm hh _
+    simp only [List.length_nil, deliverAllVia, ServerLink.run, List.foldl_nil]
+    refine ⟨hob, hpd, ?_, l, hl, hcm, hh, ?_, ?_, ?_⟩ <;> simp [blocksOf]
+  | cons e rest ih =>
+    intro s c sid l n hob hpd hl hp hcl hg hcm hh hn
+    have h1 := faultfree_delivery s e rest c sid l n hob hpd hl (hp e (by simp)).symm hcl hg hcm hh (hn e (by simp))
+    simp only at h1
+    obtain ⟨a1, a2, a3, l1, b1, b2, b3, b4, b5, b6, b7, b8, b9⟩ := h1
+    have h2 := ih (ServerLink.run s (deliverVia c n)) c sid l1 n a1 a2 b1
+      (fun e' he' => by rw [b7]; exact hp e' (List.mem_cons_of_mem _ he')) b8 b9 b2 b3
+      (fun e' he' => hn e' (List.mem_cons_of_mem _ he'))
+    simp only at h2
+    obtain ⟨c1, c2, c3, l2, d1, d2, d3, d4, d5, d6⟩ := h2
+    simp only [List.length_cons, deliverAllVia, run_append]
+    refine ⟨c1, c2, by rw [c3, a3], l2, d1, d2, d3, ?_, ?_, by rw [d6, b6]⟩
+    · rw [d4, b4]; simp
+    · rw [d5, b5]; simp [blocksOf]
 
 end Beetswap.Proofs.ServerLink
